@@ -46,13 +46,26 @@ inductive PAction where
   | flush (num lvl : Nat)
   | compact (c : Compaction)
   | trivialMove (num lvl : Nat)
+  /-- a new manifest is started (`VersionSet::log_and_apply` when no manifest file is open, i.e.
+  at `DB::open` unless the old manifest is re-used): snapshot of the current version, then CURRENT
+  is switched, then the old manifest is removed -/
+  | switchManifest (newManifest : Nat)
 
-def PAction.toAction : PAction → Action
-  | .write ops => .write ops
-  | .rotate _ => .rotate
-  | .flush n l => .flush n l
-  | .compact c => .compact c
-  | .trivialMove n l => .trivialMove n l
+/-- the LSM action of a persisted action (`none`: the LSM state is not touched) -/
+def PAction.toAction? : PAction → Option Action
+  | .write ops => some (.write ops)
+  | .rotate _ => some .rotate
+  | .flush n l => some (.flush n l)
+  | .compact c => some (.compact c)
+  | .trivialMove n l => some (.trivialMove n l)
+  | .switchManifest _ => none
+
+/-- `(level, file number)` of every file of the version, level by level (`write_snapshot`) -/
+def levelPairsFrom : Nat → List (List File) → List (Nat × Nat)
+  | _, [] => []
+  | l, fs :: rest => (fs.map fun f => (l, f.num)) ++ levelPairsFrom (l + 1) rest
+
+def levelPairs (L : List (List File)) : List (Nat × Nat) := levelPairsFrom 0 L
 
 /-- the filesystem operations of an action, in order, given the state BEFORE it -/
 def opsOf (p : PState) : PAction → List Op
@@ -77,20 +90,34 @@ def opsOf (p : PState) : PAction → List Op
     ((c.inputs0 ++ c.inputs1).map fun n => Op.removeTable n)
   | .trivialMove num lvl =>
     [.appendManifest p.c.manifest { walNumber := none, added := [(lvl + 1, num)], deleted := [(lvl, num)] }]
+  | .switchManifest m' =>
+    [.createManifest m',
+     .appendManifest m' { walNumber := some p.c.w0, added := levelPairs p.s.levels, deleted := [] },
+     .setCurrent m',
+     .removeManifest p.c.manifest]
 
 def ctxAfter (c : Ctx) : PAction → Ctx
   | .rotate w => { c with wal := w, immWal := some c.wal }
   | .flush _ _ => { c with immWal := none }
+  | .switchManifest m' => { c with manifest := m' }
   | _ => c
 
+/-- the LSM part of a step -/
+def lsmStep (s : State) (a : PAction) : Option State :=
+  match a.toAction? with
+  | some x => step s x
+  | none => some s
+
 /-- one step: the LSM transition must be enabled; a rotation needs a WAL number above every WAL
-on disk (file numbers are allocated from one increasing counter) -/
+on disk, a new manifest a number above every manifest on disk (file numbers are allocated from one
+increasing counter) -/
 def pstep (p : PState) (a : PAction) : Option PState :=
   let extra : Bool := match a with
     | .rotate w => (p.d.wals.all fun x => decide (x.1 < w))
+    | .switchManifest m' => (p.d.manifests.all fun x => decide (x.1 < m'))
     | _ => true
   if extra then
-    match step p.s a.toAction with
+    match lsmStep p.s a with
     | some s' => some { s := s', d := (opsOf p a).foldl apply p.d, c := ctxAfter p.c a }
     | none => none
   else none
